@@ -4,18 +4,9 @@
 #                   coq/theories/Extract/Extract_<name>.v -> sjmodel_<name>.ml (driver ocaml/driver_<name>.ml -> ocaml/sjdriver_<name>)
 set -e
 cd "$(dirname "$0")/.."
-python3 tools/translate.py
-if [ -f tools/translate_lex.py ]; then python3 tools/translate_lex.py; fi
-if [ -f tools/translate_fmt.py ]; then python3 tools/translate_fmt.py; fi
-if [ -f tools/translate_num.py ]; then python3 tools/translate_num.py; fi
-if [ -f tools/translate_keys.py ]; then python3 tools/translate_keys.py; fi
-if [ -f tools/translate_eq.py ]; then python3 tools/translate_eq.py; fi
-if [ -f tools/translate_scan.py ]; then python3 tools/translate_scan.py; fi
-if [ -f tools/translate_cursor.py ]; then python3 tools/translate_cursor.py; fi
-if [ -f tools/translate_ignore.py ]; then python3 tools/translate_ignore.py; fi
-if [ -f tools/translate_ptr.py ]; then python3 tools/translate_ptr.py; fi
-if [ -f tools/translate_map.py ]; then python3 tools/translate_map.py; fi
-if [ -f tools/translate_ser.py ]; then python3 tools/translate_ser.py; fi
+python3 tools/translate.py || true
+# every other translator (tables, statement-level translations): tools/translate_<x>.py -> coq/theories/Gen/<X>Tables.v
+for t in tools/translate_*.py; do python3 "$t" || true; done
 cd coq
 # the development = the files listed in coq/FILES (work in progress on disk that is not listed is not built, not audited)
 if [ ! -f Makefile ] || [ _CoqProject -nt Makefile ] || [ FILES -nt Makefile ]; then
